@@ -110,8 +110,9 @@ def units(tier):
     for gen in (ei.singles(ei.POOL1), ei.nested_tuples(), ei.sharing()):
         out += [("case", tag.split(":")[0], a, e) for tag, a, e in gen]
     for tag, a, e in ei.big():
-        k = int(tag.rsplit(":", 1)[1])
-        if tier == "thorough" or k in (1, 2, 3, 12, 20, 59, 60, 63, 64):
+        last = tag.rsplit(":", 1)[1]
+        k = int(last) if last.isdigit() else 1
+        if tier == "thorough" or k in (1, 2, 3, 12, 20, 59, 60, 63, 64, 250, 300, 600):
             out.append(("case", tag.split(":")[0], a, e))
     # literal contents (backslash escapes, quotes, non-ASCII, separators) in group / operand / salt position,
     # and the same contents inside comments of the source text
